@@ -20,6 +20,8 @@ import (
 	"net/http/httptest"
 	"strings"
 	"sync"
+	"sync/atomic"
+	"time"
 
 	"github.com/ipfs/ipfs-cluster/api"
 	"github.com/ipfs/ipfs-cluster/api/ipfsproxy"
@@ -191,7 +193,7 @@ func (s *clusterSvc) pinPath(method string, in *api.PinPath, out *api.Pin) error
 		return s.r.add(c, err)
 	}
 	c.Cid = ci.String()
-	if ci.Equals(cidR) {
+	if ci.Equals(cidR) || in.PinUpdate.Equals(cidR) {
 		return s.r.add(c, errRejected)
 	}
 	*out = *api.PinWithOpts(ci, in.PinOptions)
@@ -342,6 +344,7 @@ type dreq struct {
 type daemon struct {
 	mu     sync.Mutex
 	log    []dreq
+	aux    int
 	status int
 	body   []byte
 	srv    *httptest.Server
@@ -356,6 +359,21 @@ func newDaemon() *daemon {
 func (d *daemon) serve(w http.ResponseWriter, r *http.Request) {
 	b, _ := io.ReadAll(r.Body)
 	h := sha256.Sum256(b)
+	preflight := r.Method == http.MethodOptions && r.Header.Get("Access-Control-Request-Method") != ""
+	if preflight || r.URL.Path == extractHeadersPath {
+		// the proxy's own auxiliary traffic while answering a hijacked
+		// request (CORS pre-flight to the same path, one-off header
+		// extraction): counted, not part of the log the oracles read.
+		d.mu.Lock()
+		d.aux++
+		d.mu.Unlock()
+		w.Header().Set("X-C12-Daemon", "aux")
+		// no body: like a real daemon's pre-flight answer; it also lets the
+		// proxy's transport reuse the connection (the proxy never closes
+		// these answers) instead of leaking one socket per request.
+		w.WriteHeader(http.StatusNoContent)
+		return
+	}
 	d.mu.Lock()
 	d.log = append(d.log, dreq{Method: r.Method, URI: r.RequestURI, Path: r.URL.Path, BodyLen: len(b), BodySHA: hex.EncodeToString(h[:6]), body: b})
 	st, body := d.status, d.body
@@ -369,17 +387,23 @@ func (d *daemon) serve(w http.ResponseWriter, r *http.Request) {
 func (d *daemon) prime(status int, body []byte) {
 	d.mu.Lock()
 	d.log = nil
+	d.aux = 0
 	d.status, d.body = status, body
 	d.mu.Unlock()
 }
 
-func (d *daemon) take() []dreq {
+func (d *daemon) take() ([]dreq, int) {
 	d.mu.Lock()
 	defer d.mu.Unlock()
-	l := d.log
-	d.log = nil
-	return l
+	l, a := d.log, d.aux
+	d.log, d.aux = nil, 0
+	return l, a
 }
+
+// extractHeadersPath is the proxy's configured header-extraction path: a
+// path no enumerated case uses, so that this one-off request is
+// recognisable at the daemon.
+const extractHeadersPath = "/c12/header-extraction"
 
 // ---------------------------------------------------------------- rig
 
@@ -411,6 +435,10 @@ func newRig() (*rig, error) {
 		cfg.NodeAddr, _ = ma.NewMultiaddr(fmt.Sprintf("/ip4/127.0.0.1/tcp/%d", dAddr.Port))
 		la, _ := ma.NewMultiaddr(fmt.Sprintf("/ip4/127.0.0.1/tcp/%d", port))
 		cfg.ListenAddr = []ma.Multiaddr{la}
+		// header extraction (one POST to ExtractHeadersPath) happens once,
+		// during the warm-up request below, and never again during the run
+		cfg.ExtractHeadersTTL = 24 * time.Hour
+		cfg.ExtractHeadersPath = extractHeadersPath
 		p, err := ipfsproxy.New(cfg)
 		if err != nil {
 			lastErr = err
@@ -421,11 +449,18 @@ func newRig() (*rig, error) {
 			return nil, err
 		}
 		p.SetClient(c)
-		return &rig{d: d, rec: rec, proxy: p, base: fmt.Sprintf("http://127.0.0.1:%d", port),
+		g := &rig{d: d, rec: rec, proxy: p, base: fmt.Sprintf("http://127.0.0.1:%d", port),
 			client: &http.Client{
 				Transport:     &http.Transport{DisableCompression: true, MaxIdleConnsPerHost: 4},
 				CheckRedirect: func(*http.Request, []*http.Request) error { return http.ErrUseLastResponse },
-			}}, nil
+			}}
+		// warm-up: makes the rig's observable behaviour independent of
+		// which case it happens to serve first
+		if o := g.do("POST", "/api/v0/pin/ls", nil, "", 200, []byte("{}")); o.ClientErr != "" || o.Status != 200 {
+			g.close()
+			return nil, fmt.Errorf("warm-up request failed: %+v", o)
+		}
+		return g, nil
 	}
 	d.srv.Close()
 	return nil, fmt.Errorf("cannot start proxy: %v", lastErr)
@@ -448,6 +483,7 @@ type obs struct {
 	Panic       string  `json:"panic,omitempty"`
 	RPC         []rcall `json:"rpc"`
 	Daemon      []dreq  `json:"daemon"`
+	DaemonAux   int     `json:"daemon_aux_requests"` // proxy's own pre-flight / header-extraction requests
 }
 
 func show(b []byte) string {
@@ -457,9 +493,26 @@ func show(b []byte) string {
 	return fmt.Sprintf("%q", b)
 }
 
-// do sends one request through the proxy. target is the raw request target
-// (path[?rawquery]) and is sent verbatim.
+// transportRetries counts attempts that ended without a complete HTTP answer
+// (connection aborted by the Go HTTP stack under load) and were repeated.
+var transportRetries int64
+
+// do sends one request through the proxy and repeats it (at most 4 times)
+// when no complete HTTP answer arrived: a missing answer is only a verdict
+// when it is persistent.
 func (g *rig) do(method, target string, body []byte, ctype string, dStatus int, dBody []byte) (o obs) {
+	for attempt := 0; ; attempt++ {
+		o = g.do1(method, target, body, ctype, dStatus, dBody)
+		if o.ClientErr == "" || attempt == 4 {
+			return o
+		}
+		atomic.AddInt64(&transportRetries, 1)
+	}
+}
+
+// do1 sends one request through the proxy. target is the raw request target
+// (path[?rawquery]) and is sent verbatim.
+func (g *rig) do1(method, target string, body []byte, ctype string, dStatus int, dBody []byte) (o obs) {
 	g.d.prime(dStatus, dBody)
 	g.rec.take()
 	defer func() {
@@ -467,7 +520,7 @@ func (g *rig) do(method, target string, body []byte, ctype string, dStatus int, 
 			o.Panic = fmt.Sprint(r)
 		}
 		o.RPC = g.rec.take()
-		o.Daemon = g.d.take()
+		o.Daemon, o.DaemonAux = g.d.take()
 		o.BodyShown = show(o.Body)
 	}()
 	var rd io.Reader
